@@ -9,6 +9,12 @@ def sig(trace, step, clause):
     if a["op"] in ("nsset", "nsdel", "setprefix", "addns", "insertns"):
         extra = "prefix=%s" % ("default" if a.get("p") == "" else "named")
     post = trace["steps"][step - 1]["post"] if step else trace["init"]
+    if clause == "RejectedUnchanged" and a["op"] in ("addns", "insertns", "nsset"):
+        pre = trace["steps"][step - 2]["post"] if step > 1 else trace["init"]
+        pfx = any(p == a["p"] and u != a["u"] for p, u in pre["nsrules"])
+        uri = any(u == a["u"] and p != a["p"] for p, u in pre["nsrules"])
+        if pfx and uri:
+            return "C15|Namespaces|RejectedUnchanged|declaration-rebinds-a-bound-prefix-to-a-uri-bound-to-another-prefix"
     if clause == "UnprefixedFollowsDefault":
         stored = {it["uri"] for s in post["sels"] if s["where"] == "sheet" for it in s["items"] if it["kind"] == "default"}
         return "C15|Namespaces|%s|stored-%s" % (clause, "none" if stored == {"none"} else "uri")
@@ -40,6 +46,8 @@ def nontrivial(pre, s):
 
 def parse_sig(t, step, clause):
     a = t["steps"][0]["a"]
+    if a["kind"] == "nsdupes":
+        return "C15|NsParse|%s|order=%s" % (clause, "".join(a["order"]))
     return "C15|NsParse|%s|declared=%s|late=%s|use=%s" % (clause, a["declared"], a["late"], a["use"])
 
 
@@ -57,7 +65,7 @@ def main(tier, seed):
     q = tier == "quick"
     run = Run("C15", tier, seed)
     rows = matrix.enumerate_rows(run, "NsParse", "NsParse.cfg")
-    matrix.judge(run, "NsParseTrace", "adapters.namespaces", "run_parse_row", rows, parse_sig, parse_corrupt,
+    matrix.judge(run, "NsParseTrace", "adapters.namespaces", "run_table_row", rows, parse_sig, parse_corrupt,
                  what=lambda t, s: repr(t["steps"][0]["post"]["text"]), nontrivial=lambda t: json.dumps(t["item"], sort_keys=True))
     run.notes["late_namespace_rows"] = len(rows)
     return history.check(
